@@ -106,6 +106,16 @@ def run_iban(shard, mon, S):
                 if gi.value != gb.value:
                     mon.viol(f"iban_accessor_differs_from_bban:{comp}", w, gb.value, gi.value)
                 mon.tally("component_reads")
+            if text is texts[0]:
+                sub_ = judge.subclasses()["HelperIBAN"]
+                osub = observe(sub_, text)
+                if osub.ok:
+                    x = osub.value
+                    for name, y in (("from_bban", observe(S.IBAN.from_bban, x.country_code, x.bban)), ("reparse", observe(S.IBAN, x.compact)), ("same_class", observe(sub_, str(x)))):
+                        if not y.ok or not (y.value == x) or not (x == y.value) or hash(y.value) != hash(x) or (y.value not in {x}):
+                            mon.viol(f"subclass_instance_not_equal_to_reassembled:{name}", w, s, y.brief())
+                else:
+                    mon.viol("subclass_instance_rejected", w, "accepted", osub.brief())
             o2 = observe(S.IBAN.from_bban, ib.country_code, ib.bban)
             o3 = observe(S.IBAN.from_bban, ib.country_code, str(ib.bban))
             for oo in (o2, o3):
@@ -131,6 +141,23 @@ def run_iban(shard, mon, S):
                     mon.viol("cross_country_reassembly_keeps_foreign_bban_country", {**w, "other": other}, other, getattr(o4.value.bban, "country_code", None))
             if len(ib) != len(s) or ib.length != len(s) or ib.compact != s:
                 mon.viol("length_or_compact_wrong", w, len(s), [ib.length, ib.compact])
+        # short purely alphabetic fields (currency codes and the like): every possible value, because accessors
+        # that "interpret" a field do so for specific values
+        cls_ = R.position_classes(spec["bban_spec"]) or []
+        for comp, (s_, e_) in pos.items():
+            if e_ - s_ <= 3 and all(k == R.UPPER for k in cls_[s_:e_]) and comp != "national_checksum_digits":
+                base_b = texts[0][4:]
+                import itertools  # noqa: PLC0415
+
+                for tup in itertools.product(R.UPPER, repeat=e_ - s_):
+                    v = "".join(tup)
+                    o7 = observe(S.IBAN, R.make_iban(cc, base_b[:s_] + v + base_b[e_:]))
+                    mon.ev()
+                    if not o7.ok:
+                        mon.viol("reference_valid_iban_rejected", {"iban": R.make_iban(cc, base_b[:s_] + v + base_b[e_:])}, "ACCEPT", o7.brief())
+                    elif getattr(o7.value, comp) != v or getattr(o7.value.bban, comp) != v:
+                        mon.viol(f"component_not_published_slice:{comp}:specific_value", {"iban": str(o7.value), "component": comp}, v, getattr(o7.value, comp))
+                mon.tally("short_alpha_fields_enumerated")
         # the same decomposition after the country has been used for generation (also for countries that
         # publish no positions: their components stay empty)
         from random import Random  # noqa: PLC0415
